@@ -6,14 +6,33 @@ Line-protocol driver for the C04 models (pseudoinverse).  Parsing glue only; eve
           domain prints `none` once) ;  err singular
   tcoords <h> <w> <k> <2k coords xs> <2k coords ys>
         → ok <9 entries tcoords_to_image_coords> | <9 entries image_coords_to_tcoords> | <T(xs)> | <T⁻¹(ys)> ; err singular
-  pwa  <np> <2np src> <2np tgt> <nt> <3nt trilist> <k> <2k xs> <2k ys>
-        → ok <apply(xs)> | <apply(pinv)(ys)>                    (`none` = TriangleContainmentError)
+  pwa  <np> <2np src> <2np tgt> <nt> <3nt trilist> <k> <2k xs> <k2> <2·k2 ys>
+        → ok <apply(xs)> | <apply(pinv)(ys)> | <1 if the mesh is certified a triangulation in both directions, else 0>
+                                                                 (`none` = TriangleContainmentError)
+  pwaidx <np> <2np src> <2np tgt> <nt> <3nt trilist> <k> <2k xs>
+        → ok <per point: `i alpha beta` of index_alpha_beta, or `none`> | <apply(xs)> | <pinv.apply(apply(xs))> | <certified>
   tps  <mode> <n> <2n src> <2n tgt> <m> <m × (q φ(q))> <k> <2k pts>      mode ∈ fit | pinvCoded | pinvFixed
         → ok <2k coords> ; err singular
+
+operation sequences on one live object (`Core/C04Ops.lean`; the answers are `Live.run false …`, i.e. the definition the
+operation-sequence theorems are about, matched with `statesAtQueries`):
+  ops  <Class> <d> <(d+1)² h_matrix> <e> [<sid> <tid>] <n> <op>*n        e = 1: alignment with end point ids
+        op ::= q <k> <k·d ys>                 pseudoinverse(), then its apply on ys
+             | st <tid> <(d+1)² H>            set_target (H = the matrix the class fits to the new target)
+             | ss <tid|-> <(d+1)² H>          from_vector_inplace / set_h_matrix / set_rotation_matrix
+             | cb <tid|-> <(d+1)² M>          compose_before_inplace(M)
+             | ca <tid|-> <(d+1)² M>          compose_after_inplace(M)
+        → ok then per query:  <current h_matrix> | <pinv h_matrix or `singular`> | <pinv ends `sid tid` or `-`> | <pinv.apply(ys)>
+  tpsops <n> <2n src> <2n tgt> <m> <m × (q φ(q))> <nops> <op>*      op ::= q <k> <2k pts> | st <2n tgt>
+        → ok then per query:  <pinv.apply(pts)> (`singular` if the reverse system has no solution)
+  pwaops <np> <2np src> <2np tgt> <nt> <3nt trilist> <nops> <op>*   op ::= q <k> <2k ys> | st <2np tgt>
+        → ok then per query:  <pinv.apply(ys)> | <1 if the mesh of that moment is certified, else 0>
 -/
 import MenpoModel.Core.Codec
 import MenpoModel.Core.C04Homog
 import MenpoModel.Core.C04Warp
+import MenpoModel.Core.C04Ops
+import MenpoModel.Core.C04Mesh
 
 namespace MenpoModel.Drive.C04
 open MenpoModel.Codec MenpoModel.C04
@@ -64,7 +83,20 @@ def pwaOp (src tgt : List Rat) (tris : List Nat) (xs ys : List Rat) : String :=
   let f := m.toPWA
   let b := m.pinv.toPWA
   "ok " ++ " ".intercalate ((p2s xs).map fun p => fmtOP (f.apply p)) ++ " | "
-    ++ " ".intercalate ((p2s ys).map fun p => fmtOP (b.apply p))
+    ++ " ".intercalate ((p2s ys).map fun p => fmtOP (b.apply p)) ++ " | " ++ (if m.certified then "1" else "0")
+
+/-- `index_alpha_beta(points)` of the forward warp: per point `i alpha beta`, or `none` (its entry of the error mask) -/
+def pwaIdxOp (src tgt : List Rat) (tris : List Nat) (xs : List Rat) : String :=
+  let tl := (List.range (tris.length / 3)).map fun k => (tris.getD (3 * k) 0, tris.getD (3 * k + 1) 0, tris.getD (3 * k + 2) 0)
+  let m : PWAMesh := ⟨p2s src, p2s tgt, tl⟩
+  let f := m.toPWA
+  let b := m.pinv.toPWA
+  "ok " ++ " ".intercalate ((p2s xs).map fun p => match f.indexAB p with
+      | none => "none"
+      | some (i, a, b) => toString i ++ " " ++ fmtRat a ++ " " ++ fmtRat b) ++ " | "
+    ++ " ".intercalate ((p2s xs).map fun p => fmtOP (f.apply p)) ++ " | "
+    ++ " ".intercalate ((p2s xs).map fun p => fmtOP ((f.apply p).bind b.apply)) ++ " | "
+    ++ (if m.certified then "1" else "0")
 
 def tpsOp (mode : String) (n : Nat) (src tgt : List Rat) (tab : List Rat) (pts : List Rat) : String :=
   let table := (List.range (tab.length / 2)).map fun k => (tab.getD (2 * k) 0, tab.getD (2 * k + 1) 0)
@@ -74,6 +106,81 @@ def tpsOp (mode : String) (n : Nat) (src tgt : List Rat) (tab : List Rat) (pts :
   match t.coef φ with
   | none => "err singular"
   | some C => "ok " ++ " ".intercalate ((p2s pts).map fun p => fmtOP (some (t.eval φ C p)))
+
+/-! ### operation sequences -/
+
+def pTid : P (Option Nat) := do
+  let t ← tok
+  if t == "-" then pure none else (t.toNat?.map some : Option (Option Nat))
+
+/-- one operation of the homogeneous family; queries carry their probe points -/
+def pHomOp (d : Nat) : P (Option (Op d Nat) × List Rat) := do
+  let t ← tok
+  if t == "q" then
+    let k ← pNat; let ys ← pMany pRat (k * d); pure (none, ys)
+  else if t == "st" then
+    let tid ← pNat; let h ← pMany pRat ((d + 1) * (d + 1)); pure (some (.setTarget tid (matOf (d + 1) h)), [])
+  else
+    let tid ← pTid; let h ← pMany pRat ((d + 1) * (d + 1))
+    if t == "ss" then pure (some (.setState (matOf (d + 1) h) tid), [])
+    else if t == "cb" then pure (some (.composeBefore (matOf (d + 1) h) tid), [])
+    else if t == "ca" then pure (some (.composeAfter (matOf (d + 1) h) tid), [])
+    else failure
+
+def fmtEnds (e : Option (Nat × Nat)) : String :=
+  match e with
+  | none => "-"
+  | some (a, b) => toString a ++ " " ++ toString b
+
+def homOps (c : Cls) (d : Nat) (h : List Rat) (ends : Option (Nat × Nat)) (ops : List (Option (Op d Nat) × List Rat)) :
+    String :=
+  let t : HT d Nat := ⟨c, matOf (d + 1) h, ends⟩
+  let ol := ops.map Prod.fst
+  let answers := Live.run false pinv HT.act (Live.fresh t) ol
+  let states := statesAtQueries HT.act t ol
+  let probes := (ops.filter fun o => o.1.isNone).map Prod.snd
+  let one : HT d Nat × Option (HT d Nat) × List Rat → String := fun (s, a, ys) =>
+    fmtM s.h ++ " | " ++ (match a with
+      | none => "singular | - | -"
+      | some u => fmtM u.h ++ " | " ++ fmtEnds u.ends ++ " | " ++
+          " ".intercalate ((List.range (ys.length / d)).map fun i => fmtOV (u.apply (vecOf d ys i))))
+  "ok " ++ " | ".intercalate ((states.zip (answers.zip probes)).map one)
+
+def pTpsOp (n : Nat) : P (Option (Fin n → P2) × List Rat) := do
+  let t ← tok
+  if t == "q" then
+    let k ← pNat; let ys ← pMany pRat (2 * k); pure (none, ys)
+  else if t == "st" then
+    let tg ← pMany pRat (2 * n); pure (some (p2f n tg), [])
+  else failure
+
+def tpsOps (n : Nat) (src tgt : List Rat) (tab : List Rat) (ops : List (Option (Fin n → P2) × List Rat)) : String :=
+  let table := (List.range (tab.length / 2)).map fun k => (tab.getD (2 * k) 0, tab.getD (2 * k + 1) 0)
+  let φ : Rat → Rat := fun q => match table.find? (fun e => e.1 == q) with | some e => e.2 | none => 0
+  let t0 : TPS n := TPS.fit (p2f n src) (p2f n tgt)
+  let answers := Live.run false TPS.pinvFixed TPS.setTarget (Live.fresh t0) (ops.map Prod.fst)
+  let probes := (ops.filter fun o => o.1.isNone).map Prod.snd
+  "ok " ++ " | ".intercalate ((answers.zip probes).map fun (a, ys) =>
+    match a.coef φ with
+    | none => "singular"
+    | some C => " ".intercalate ((p2s ys).map fun p => fmtOP (some (a.eval φ C p))))
+
+def pPwaOp (np : Nat) : P (Option (List P2) × List Rat) := do
+  let t ← tok
+  if t == "q" then
+    let k ← pNat; let ys ← pMany pRat (2 * k); pure (none, ys)
+  else if t == "st" then
+    let tg ← pMany pRat (2 * np); pure (some (p2s tg), [])
+  else failure
+
+def pwaOps (src tgt : List Rat) (tris : List Nat) (ops : List (Option (List P2) × List Rat)) : String :=
+  let tl := (List.range (tris.length / 3)).map fun k => (tris.getD (3 * k) 0, tris.getD (3 * k + 1) 0, tris.getD (3 * k + 2) 0)
+  let m : PWAMesh := ⟨p2s src, p2s tgt, tl⟩
+  let answers := Live.run false PWAMesh.pinv PWAMesh.setTarget (Live.fresh m) (ops.map Prod.fst)
+  let states := statesAtQueries PWAMesh.setTarget m (ops.map Prod.fst)
+  let probes := (ops.filter fun o => o.1.isNone).map Prod.snd
+  "ok " ++ " | ".intercalate ((states.zip (answers.zip probes)).map fun (s, a, ys) =>
+    " ".intercalate ((p2s ys).map fun p => fmtOP (a.toPWA.apply p)) ++ " | " ++ (if s.certified then "1" else "0"))
 
 def step (toks : List String) : String :=
   match toks with
@@ -93,8 +200,16 @@ def step (toks : List String) : String :=
     match runP (do
         let np ← pNat; let src ← pMany pRat (2 * np); let tgt ← pMany pRat (2 * np)
         let nt ← pNat; let tris ← pMany pNat (3 * nt); let k ← pNat
-        let xs ← pMany pRat (2 * k); let ys ← pMany pRat (2 * k); pure (src, tgt, tris, xs, ys)) rest with
+        let xs ← pMany pRat (2 * k); let k2 ← pNat; let ys ← pMany pRat (2 * k2)
+        pure (src, tgt, tris, xs, ys)) rest with
     | some (src, tgt, tris, xs, ys) => pwaOp src tgt tris xs ys
+    | none => "bad-op"
+  | "pwaidx" :: rest =>
+    match runP (do
+        let np ← pNat; let src ← pMany pRat (2 * np); let tgt ← pMany pRat (2 * np)
+        let nt ← pNat; let tris ← pMany pNat (3 * nt); let k ← pNat
+        let xs ← pMany pRat (2 * k); pure (src, tgt, tris, xs)) rest with
+    | some (src, tgt, tris, xs) => pwaIdxOp src tgt tris xs
     | none => "bad-op"
   | "tps" :: mode :: rest =>
     match runP (do
@@ -102,6 +217,39 @@ def step (toks : List String) : String :=
         let m ← pNat; let tab ← pMany pRat (2 * m); let k ← pNat; let pts ← pMany pRat (2 * k)
         pure (n, src, tgt, tab, pts)) rest with
     | some (n, src, tgt, tab, pts) => tpsOp mode n src tgt tab pts
+    | none => "bad-op"
+  | "ops" :: c :: rest =>
+    match clsOf c with
+    | none => "bad-op"
+    | some c =>
+      match (do
+          let d ← pNat
+          let h ← pMany pRat ((d + 1) * (d + 1))
+          let e ← pNat
+          let ends ← (if e == 1 then (do let a ← pNat; let b ← pNat; pure (some (a, b))) else pure none : P (Option (Nat × Nat)))
+          let n ← pNat
+          let ops ← pMany (pHomOp d) n
+          pEnd
+          pure (homOps c d h ends ops) : P String) rest with
+      | some (r, _) => r
+      | none => "bad-op"
+  | "tpsops" :: rest =>
+    match (do
+        let n ← pNat; let src ← pMany pRat (2 * n); let tgt ← pMany pRat (2 * n)
+        let m ← pNat; let tab ← pMany pRat (2 * m); let k ← pNat
+        let ops ← pMany (pTpsOp n) k
+        pEnd
+        pure (tpsOps n src tgt tab ops) : P String) rest with
+    | some (r, _) => r
+    | none => "bad-op"
+  | "pwaops" :: rest =>
+    match (do
+        let np ← pNat; let src ← pMany pRat (2 * np); let tgt ← pMany pRat (2 * np)
+        let nt ← pNat; let tris ← pMany pNat (3 * nt); let k ← pNat
+        let ops ← pMany (pPwaOp np) k
+        pEnd
+        pure (pwaOps src tgt tris ops) : P String) rest with
+    | some (r, _) => r
     | none => "bad-op"
   | _ => "bad-op"
 
